@@ -18,6 +18,16 @@ CHECKS = {
              tech="Coq proof (loop invariant + logarithmic fuel; trial division vs Znumtheory.prime; refinement over histories) + differential correspondence"),
 }
 
+CHECKS["C16"] = dict(text="Coq theorem C16: for every simple graph (incl. empty, edgeless, forests, many components) and every BFS root order, the ForestIndex model never fails, both lookups are inverse bijections onto 0..m-1, k is the number of connected components (n_components), csd + n = m + k, is_on_forest <-> index >= csd, and the on-forest edges form a spanning forest (acyclic in the even-subset sense, connecting whatever g connects). Tied by exact comparison of all lookups/flags and of spanning_forest's emission under the recovered root order.",
+             note="Root order of std::unordered_set is an oracle (universally quantified; recovered from the run). Boost iteration orders assumed as stated in DESIGN.md §6.",
+             tech="Coq proof (BFS invariant, pendant-edge acyclicity, counting) + differential correspondence with recovered oracle")
+CHECKS["C13"] = dict(text="Coq theorems C13_fvs / C13_forest / C13_no_fuel_error / C13_complete_run_exists: for every simple graph and every resolution of the heap's choices, a complete run of the greedy_fvs model emits distinct vertices of the graph whose removal leaves no non-empty even-degree edge subset (no cycle); forests emit nothing; the degree bookkeeping (incl. vertices queued twice for removal) is the proved invariant. Tied by acceptance: the implementation's emitted sequence is replayed as the oracle and must be accepted as a complete run.",
+             note="pairing_heap::top abstracted as 'some existing vertex' (oracle). Termination of the real loop is runtime behaviour; the model shows complete runs exist and fuel never runs out.",
+             tech="Coq proof (state invariant + existence-preserving even-subset argument) + acceptance correspondence")
+CHECKS["C15"] = dict(text="Coq theorem C15 (+ C15_stretch, C15_bfs_bounded): for every simple graph, k >= 1 and every weight-sorted scan order the spanner model returns a partition retained/dropped, the spanner is the subgraph of retained edges carrying the input's weights, every dropped edge has a path of <= 2k-1 retained edges none heavier (stretch <= 2k-1), and no simple cycle of <= 2k retained edges exists; is_bfs_reachable = hop distance <= bound. Tied by exact comparison of the spanner exposed through the PARMCB_VERIF accessors under the recovered scan order, and of direct is_bfs_reachable calls. Defect D6a (zero spanner weights) was exhibited by this check and repaired by a fix: commit.",
+             note="std::sort's permutation among equal weights is an oracle (universally quantified; recovered as retained-before-dropped merge, which reproduces the outcome). k = 0 wraps max_hops to SIZE_MAX (modelled as unbounded).",
+             tech="Coq proof (BFS layering invariant, scan-order induction, girth by last-scanned edge) + differential correspondence through guarded accessors")
+
 NOT_YET = "check not built yet (work in progress; see DESIGN.md §9)"
 NA = {
  "C19": "compile/link property of a finite family of generated programs: there is no behaviour of parmcb to model, the compiler run would itself be the decision procedure, so deciding it means switching technique (DESIGN.md §5 C19)",
